@@ -2,10 +2,10 @@
 //!
 //! Two kinds of lines.
 //! (a) Answered by the Lean model `model_C19` (bit-level / decision logic that IS proved):
-//!     `recon <k>`   the two integer-built factors of `Exp` (transliteration of exp.rs's integer
-//!                   steps with i32 wrapping ops) + an end-to-end probe of the real `Exp` at
-//!                   `x = k·ln2` (oracle: result within 1% of 2^k / same overflow class);
-//!     `rrecon <k>`  `ReducedRangeExp`'s `(k+127)<<23`;
+//!     `recon <k>`   the two integer-built factors (is, it) of `Exp`, READ FROM THE REAL CODE through
+//!                   the cfg(rten_verif) probe in exp.rs (rten_vecmath::verif::trace_exp_factors) while
+//!                   evaluating x = k·ln2, k = -260..260; oracle: Exp(x) within 1e-6 of exp(x);
+//!     `rrecon <k>`  `ReducedRangeExp`'s `(k+127)<<23`, read from the real code the same way (via Erf);
 //!     `kreach`      largest |k| the real range reduction produces for |x| < 104;
 //!     `sel exp <v>` / `sel tanh <v>`  value class of the real `Exp` / `Tanh` at special inputs.
 //! (b) `#` lines — EXHAUSTIVE / STRIDED EXECUTION, NOT PROOF: sweeps of f32 bit patterns
@@ -44,17 +44,6 @@ fn pow2_exp(b: u32) -> Option<i64> {
 }
 fn show_opt(o: Option<i64>) -> String {
     o.map(|x| x.to_string()).unwrap_or("none".into())
-}
-
-/// exp.rs lines 105-114 with i32 wrapping arithmetic.
-fn exp_recon(k: i32) -> (u32, u32) {
-    let ia_mask = k > 0;
-    let x7f: i32 = 0x7f000000;
-    let x83: i32 = 0x83000000u32 as i32;
-    let ia = if ia_mask { 0 } else { x83 };
-    let is = ia.wrapping_add(x7f);
-    let it = (k.wrapping_shl(23)).wrapping_sub(ia);
-    (is as u32, it as u32)
 }
 
 /// Decimal string of `m * 2^sh` (arbitrary size).
@@ -111,13 +100,21 @@ fn fval(x: f32) -> String {
 
 fn model_lines(out: &mut Out, rng: &mut Rng, thorough: bool) {
     let exp = vm::Exp {};
-    for k in -260i32..=260 {
-        let (is, it) = exp_recon(k);
-        // end-to-end probe of the real Exp at x ≈ k·ln2
+    // The REAL code's integers: a cfg(rten_verif) probe inside Exp::eval / ReducedRangeExp::eval
+    // records (k, is, it) resp. (k, k_pow2) per lane; x = k·ln2 steers the range reduction to k.
+    let ks: Vec<i32> = (-260..=260).collect();
+    let xs: Vec<f32> = ks.iter().map(|&k| (k as f64 * std::f64::consts::LN_2) as f32).collect();
+    let (ys, trace) = vm::verif::trace_exp_factors(|| map_op(&exp, &xs));
+    for (i, &k) in ks.iter().enumerate() {
+        let (kr, is, it) = trace.get(i).copied().unwrap_or((i32::MIN, 0, 0));
+        let (is, it) = (is as u32, it as u32);
         let mut fail = None;
+        if kr != k {
+            fail = Some(format!("range reduction of x={:e} produced k={kr}, expected {k}", xs[i]));
+        }
         if (-150..=150).contains(&k) {
-            let x = (k as f64 * std::f64::consts::LN_2) as f32;
-            let y = map_op(&exp, &[x])[0] as f64;
+            let x = xs[i];
+            let y = ys[i] as f64;
             let want = (x as f64).exp();
             let ok = if want > f32::MAX as f64 {
                 y.is_infinite()
@@ -134,16 +131,21 @@ fn model_lines(out: &mut Out, rng: &mut Rng, thorough: bool) {
         }
         out.bucket("recon");
         out.case(
-            &format!("recon {k}"),
+            &format!("recon {kr}"),
             &format!("is={:08x} it={:08x} e1={} e2={}", is, it, show_opt(pow2_exp(is)), show_opt(pow2_exp(it))),
             fail.as_deref(),
             k != 0,
         );
     }
-    for k in -140i32..=140 {
-        let p = (k.wrapping_add(127)).wrapping_shl(23) as u32;
+    // ReducedRangeExp is crate-private; Erf feeds it -(x^2), so x = sqrt(-k ln2) steers it to k.
+    let rks: Vec<i32> = (-144..=0).collect();
+    let rxs: Vec<f32> = rks.iter().map(|&k| ((-(k as f64)) * std::f64::consts::LN_2).sqrt() as f32).collect();
+    let (_, rtrace) = vm::verif::trace_exp_factors(|| map_op(&vm::Erf {}, &rxs));
+    for (i, &k) in rks.iter().enumerate() {
+        let (kr, p, _) = rtrace.get(i).copied().unwrap_or((i32::MIN, 0, 0));
+        let fail = if (kr - k).abs() > 1 { Some(format!("ReducedRangeExp range reduction gave k={kr} for target {k}")) } else { None };
         out.bucket("rrecon");
-        out.case(&format!("rrecon {k}"), &format!("p={:08x} e={}", p, show_opt(pow2_exp(p))), None, true);
+        out.case(&format!("rrecon {kr}"), &format!("p={:08x} e={}", p as u32, show_opt(pow2_exp(p as u32))), fail.as_deref(), true);
     }
     // reachable k: the code's own range reduction at the largest |x| below the 104 cutoff
     {
